@@ -40,6 +40,12 @@ var procsMu sync.Mutex
 // VerifDir is the root of the verification tree (scripts and specs are resolved against it).
 var VerifDir = "/verif"
 
+func init() {
+	if d := os.Getenv("VERIF_DIR"); d != "" {
+		VerifDir = d // worker processes of a check started from a snapshot of /verif
+	}
+}
+
 func getProc(script string) (*pyproc, error) {
 	procsMu.Lock()
 	defer procsMu.Unlock()
